@@ -187,7 +187,7 @@ theorem Greedy.addAll_shortCircuit (c : Cfg α) (best : Option α) (xs : List α
           simp [Greedy.foldStep, Greedy.add, hb]
         have e2 : Greedy.foldStep false c (some b, false) x = (some x, true) := by
           simp [Greedy.foldStep, Greedy.add, hb]
-        simp only [consideredPrefix, hb, if_false, List.foldl_cons, e1, e2, Greedy.fold_sc_done, List.foldl_nil]
+        simp [consideredPrefix, hb, e1, e2, Greedy.fold_sc_done]
 
 /-- which part of a batch the population looks at -/
 def greedyEff (sc : Bool) (c : Cfg α) : Option α → List α → List α :=
@@ -270,11 +270,11 @@ theorem greedy_step (sc : Bool) {c : Cfg α} (hp : TotalPreorder c.le) (offered 
     cases s with
     | none => simp [selOK, Machine.step, Machine.observe, greedyM, Greedy.select, greedySpec, optEq]
     | some b =>
-      have hb : b ∈ offered := by simpa using h'.sub b rfl
+      have hb := h'.sub b rfl
       simp only [selOK, Machine.step, Machine.observe, greedyM, Greedy.select, greedySpec, Option.toList,
         Bool.and_eq_true, Bool.or_eq_true, List.all_eq_true, List.mem_replicate, and_imp, memB_iff,
         Bool.not_eq_true', Option.isSome_some, if_true, List.append_nil]
-      refine ⟨⟨⟨fun x _ hx => hx ▸ hb, Or.inr (fun x _ hx => by simp [hx])⟩, ?_⟩, ?_⟩
+      refine ⟨⟨⟨fun x _ hx => by subst hx; exact hb, Or.inr (fun x _ hx => by simp [hx])⟩, ?_⟩, ?_⟩
       · by_cases hsel : 1 ≤ c.selSize
         · right
           obtain ⟨k, hk⟩ : ∃ k, c.selSize = k + 1 := ⟨c.selSize - 1, by omega⟩
